@@ -25,22 +25,24 @@ VARIANTS = {            # name -> (value type, extra flags, libs)
 
 
 class Program:
-    def __init__(self, decls, orient, stmts, name, sparse=()):
-        self.decls, self.orient, self.stmts, self.name, self.sparse = decls, orient, stmts, name, tuple(sparse)
+    def __init__(self, decls, orient, stmts, name, sparse=(), quiet=0):
+        """quiet: the first `quiet` statements are element sets that establish the initial store and produce no output line
+        (big-shape shards); output line k then belongs to statement quiet + k"""
+        self.decls, self.orient, self.stmts, self.name, self.sparse, self.quiet = decls, orient, stmts, name, tuple(sparse), quiet
 
-    def source(self): return G.cxx_program(self.decls, self.orient, self.stmts, random.Random(7), sparse=self.sparse)
-    def terms(self): return G.term_file(self.decls, self.stmts)
-    def expected(self): return G.expected_lines(self.decls, self.stmts)
+    def source(self): return G.cxx_program(self.decls, self.orient, self.stmts, random.Random(7), sparse=self.sparse, quiet=self.quiet)
+    def terms(self): return G.term_file(self.decls, self.stmts, self.quiet)
+    def expected(self): return G.expected_lines(self.decls, self.stmts, self.quiet)
 
     def to_json(self):
         return {"name": self.name, "decls": self.decls, "orient": {str(k): v for k, v in self.orient.items()},
-                "stmts": self.stmts, "sparse": self.sparse}
+                "stmts": self.stmts, "sparse": self.sparse, "quiet": self.quiet}
 
     @staticmethod
     def from_json(j):
         tup = lambda x: tuple(tup(y) for y in x) if isinstance(x, list) else x
         return Program([tup(d) for d in j["decls"]], {int(k): v for k, v in j["orient"].items()},
-                       [tup(s) for s in j["stmts"]], j["name"], [tup(s) for s in j.get("sparse", [])])
+                       [tup(s) for s in j["stmts"]], j["name"], [tup(s) for s in j.get("sparse", [])], j.get("quiet", 0))
 
 
 def run_cxx(prog, variant, timeout=60):
@@ -100,13 +102,18 @@ def prestate_program(prog, k, name):
     for d in prog.decls:
         if d[0] == "v": s.v[d[1]] = [0] * d[2]
         else: s.m[d[1]] = [[0] * d[3] for _ in range(d[2])]
-    for st in prog.stmts[:k]: s, _ = G.exec_stmt(s, st)
+    for i, st in enumerate(prog.stmts[:k]):
+        if i < prog.quiet: G.wr(s, ("v", st[1], st[2]) if st[0] == "SSetV" else ("m", st[1], st[2], st[3]), st[-1])
+        else: s, _ = G.exec_stmt(s, st)
     used = G.names_in(prog.stmts[k])
     decls = [d for d in prog.decls if (d[0], d[1]) in used]
     init = []
     for d in decls:
         if d[0] == "v": init += [("SSetV", d[1], i, s.v[d[1]][i]) for i in range(d[2])]
         else: init += [("SSetM", d[1], i, j, s.m[d[1]][i][j]) for i in range(d[2]) for j in range(d[3])]
+    if prog.quiet:      # big shapes: only the non-zero cells, as a quiet initial store
+        init = [x for x in init if x[-1] != 0]
+        return Program(decls, prog.orient, init + [prog.stmts[k]], name, prog.sparse, quiet=len(init))
     return Program(decls, prog.orient, init + [prog.stmts[k]], name, prog.sparse)
 
 
@@ -134,6 +141,16 @@ def replace_kids(e):
     return out
 
 
+def compact(obs, exp):
+    """for long output lines keep only the containers whose printed value differs"""
+    if not obs or not exp or len(obs[-1]) + len(exp[-1]) < 600: return obs, exp
+    to, te = obs[-1].split(" "), exp[-1].split(" ")
+    if len(to) != len(te): return [obs[-1][:300] + " ..."], [exp[-1][:300] + " ..."]
+    keep = [i for i, (a, b) in enumerate(zip(to, te)) if a != b or i < 3]
+    cut = lambda t: t if len(t) < 400 else t[:400] + "..."
+    return [" ".join(cut(to[i]) for i in keep)], [" ".join(cut(te[i]) for i in keep)]
+
+
 def fails(prog, variant):
     """does the single program disagree with the documented meaning? returns (bool, detail dict)"""
     try: exp = prog.expected()
@@ -142,7 +159,7 @@ def fails(prog, variant):
     if status == "compile": return True, {"kind": "does-not-compile", "detail": detail[-1500:], "expected": exp[-1:]}
     if status == "crash": return True, {"kind": "crash", "detail": detail, "observed": lines[-1:], "expected": exp[-1:]}
     if lines != exp:
-        return True, {"kind": "wrong-value", "observed": lines[-1:], "expected": exp[-1:]}
+        return True, {"kind": "wrong-value", "observed": compact(lines[-1:], exp[-1:])[0], "expected": compact(lines[-1:], exp[-1:])[1]}
     return False, {}
 
 
@@ -158,10 +175,10 @@ def shrink_statement(prog, variant, budget=14):
             cand = cur[:4] + (cand_e,)
             if cur[1] and (G.names_in(cand_e) & G.names_in(cur[3])): continue
             n += 1
-            p2 = Program(prog.decls, prog.orient, init + [cand], "shr%d" % n, prog.sparse)
+            p2 = Program(prog.decls, prog.orient, init + [cand], "shr%d" % n, prog.sparse, prog.quiet)
             if fails(p2, variant)[0]:
                 cur = cand; progress = True; break
-    return Program(prog.decls, prog.orient, init + [cur], prog.name, prog.sparse)
+    return Program(prog.decls, prog.orient, init + [cur], prog.name, prog.sparse, prog.quiet)
 
 
 def report_failure(ck, prog, k, variant, origin):
@@ -172,7 +189,7 @@ def report_failure(ck, prog, k, variant, origin):
         mini = shrink_statement(mini, variant)
         bad, det = fails(mini, variant)
     if not bad:     # not reproducible from the pre-state alone (e.g. earlier memory corruption): keep the prefix
-        mini = Program(prog.decls, prog.orient, prog.stmts[:k + 1], "prefix", prog.sparse); bad, det = fails(mini, variant)
+        mini = Program(prog.decls, prog.orient, prog.stmts[:k + 1], "prefix", prog.sparse, prog.quiet); bad, det = fails(mini, variant)
     st = mini.stmts[-1]
     cxx = G.Cxx(random.Random(7)).stmt(st)
     key = "%s:%s" % (origin, stmt_key(st))
@@ -219,10 +236,11 @@ def check_program(ck, model, prog, variants, origin, max_reports=3):
             k = next((i for i, (a, b) in enumerate(zip(lines, e2)) if a != b), None)
             if k is None and len(lines) < len(e2): k = len(lines)
             if k is None: break
+            k += cur.quiet          # output line -> statement index
             if nrep < max_reports: report_failure(ck, cur, k, v, origin); nrep += 1
             else: break
             cur = drop_statements(cur, [k])
-    return len(prog.stmts)
+    return len(prog.stmts) - prog.quiet
 
 
 def drop_statements(prog, ks):
@@ -233,6 +251,8 @@ def drop_statements(prog, ks):
         else: s.m[d[1]] = [[0] * d[3] for _ in range(d[2])]
     out = []
     for i, st in enumerate(prog.stmts):
+        if i < prog.quiet:
+            G.wr(s, ("v", st[1], st[2]) if st[0] == "SSetV" else ("m", st[1], st[2], st[3]), st[-1]); out.append(st); continue
         s2, _ = G.exec_stmt(s, st)
         if i in ks:
             for d in prog.decls:
@@ -240,7 +260,7 @@ def drop_statements(prog, ks):
                 else: out += [("SSetM", d[1], a, b, s2.m[d[1]][a][b]) for a in range(d[2]) for b in range(d[3]) if s2.m[d[1]][a][b] != s.m[d[1]][a][b]]
         else: out.append(st)
         s = s2
-    return Program(prog.decls, prog.orient, out, prog.name + "d", prog.sparse)
+    return Program(prog.decls, prog.orient, out, prog.name + "d", prog.sparse, prog.quiet)
 
 
 # ---------------------------------------------------------------------------------------------------
@@ -438,6 +458,94 @@ def big_statement(g):
     return ("SAssignV", noalias, op, tgt, src)
 
 
+def long_inner_program(rng, name, above_tile):
+    """matrix products with a LONG inner dimension (the fallback kernel of the CBLAS build, kernels/cblas/dense_gemm.hpp,
+    copies operands without dense storage in tiles of 512 along the inner dimension): outer dimensions 1..3, inner
+    dimension around and above the tile size, at least one operand an element-wise expression (sqr, abs, sum, difference),
+    plain dense operands as control; forms =, noalias =, noalias +=; matrix-vector products alongside"""
+    K = rng.choice([513, 700, 1030, 1100] if above_tile else [511, 512, 513, 700, 1030, 1100])
+    r, c = rng.randint(1, 3), rng.randint(1, 3)
+    shapes = [(r, K), (r, K), (K, c), (K, c), (r, c), (r, c), (c, r)]
+    decls = [("v", 0, K), ("v", 1, r), ("v", 2, r), ("v", 3, c)] + [("m", i, a, b) for i, (a, b) in enumerate(shapes)]
+    orient = {i: rng.random() < 0.5 for i in range(len(shapes))}
+    init = []
+    for d in decls:
+        if d[0] == "v": init += [("SSetV", d[1], i, rng.randint(-2, 2)) for i in range(d[2])]
+        else: init += [("SSetM", d[1], i, j, rng.randint(-2, 2)) for i in range(d[2]) for j in range(d[3])]
+    A, A2, B, B2, C, C2, Ct = [("MVar", i, a, b) for i, (a, b) in enumerate(shapes)]
+    x, y, y2, z = ("VVar", 0, K), ("VVar", 1, r), ("VVar", 2, r), ("VVar", 3, c)
+    sq = lambda m: ("MUn", "FSqr", m); ab = lambda m: ("MUn", "FAbs", m)
+    prods = [("MProd", 1, sq(A), B), ("MProd", 1, ("MAdd", A, A2), B), ("MProd", 1, A, sq(B)), ("MProd", 1, A, ("MMinus", B, B2)),
+             ("MProd", 1, ab(A), ("MAdd", B, B2)), ("MProd", 1, ("MBin", "BMul", A, A2), B), ("MProd", 1, A, B), ("MProd", 1, A2, B2)]
+    tprods = [("MProd", 1, ("MTrans", sq(B)), ("MTrans", A)), ("MProd", 1, ("MTrans", B), ("MTrans", ("MAdd", A, A2))), ("MProd", 1, ("MTrans", B2), ("MTrans", A))]
+    vprods = [("VMv", 1, sq(A), x), ("VMv", 1, ("MAdd", A, A2), x), ("VMv", 1, A, ("VUn", "FSqr", x)), ("VMv", 1, A, x)]
+    wprods = [("VMv", 1, ("MTrans", sq(B)), x), ("VMv", 1, ("MTrans", B), x)]
+    forms = [(False, "OpSet"), (True, "OpSet"), (True, "OpAdd")]
+    stmts = []
+    for p in prods:
+        na, o = rng.choice(forms); stmts.append(("SAssignM", na, o, rng.choice([C, C2]), p))
+    for na, o in forms: stmts.append(("SAssignM", na, o, C, rng.choice(prods[:6])))      # every form with an expression operand
+    for p in tprods: na, o = rng.choice(forms); stmts.append(("SAssignM", na, o, Ct, p))
+    for p in vprods: na, o = rng.choice(forms); stmts.append(("SAssignV", na, o, rng.choice([y, y2]), p))
+    for p in wprods: na, o = rng.choice(forms); stmts.append(("SAssignV", na, o, z, p))
+    rng.shuffle(stmts)
+    return Program(decls, orient, init + stmts, name, quiet=len(init))
+
+
+def tri_program(rng, name, nstmts):
+    """triangular_prod<lower|upper|unit_lower|unit_upper>(A, v) and (A, B) = prod(to_triangular(A, tag), .) of dense
+    matrices of both orientations: alias-free compound forms with a scalar factor (`noalias(x) += c*T v`, `-=`, which
+    introduces the factor -1), plain and noalias `=`, plain `+=` (also with the target as operand)"""
+    ns = [1, 2, 3, 4, 6, 17]
+    decls = []; orient = {}; vid = 0; mid = 0; sq = {}; rect = {}; vec = {}
+    for n in ns:
+        vec[n] = []
+        for _ in range(3): decls.append(("v", vid, n)); vec[n].append(("VVar", vid, n)); vid += 1
+        sq[n] = []
+        for _ in range(2): decls.append(("m", mid, n, n)); orient[mid] = rng.random() < 0.5; sq[n].append(("MVar", mid, n, n)); mid += 1
+        k = rng.choice([1, 2, 3, 5]); rect[n] = []
+        for _ in range(2): decls.append(("m", mid, n, k)); orient[mid] = rng.random() < 0.5; rect[n].append(("MVar", mid, n, k)); mid += 1
+    init = []
+    for d in decls:
+        if d[0] == "v": init += [("SSetV", d[1], i, rng.randint(-3, 3)) for i in range(d[2])]
+        else: init += [("SSetM", d[1], i, j, rng.randint(-3, 3)) for i in range(d[2]) for j in range(d[3])]
+    s = G.Env()
+    for d in decls:
+        if d[0] == "v": s.v[d[1]] = [0] * d[2]
+        else: s.m[d[1]] = [[0] * d[3] for _ in range(d[2])]
+    for st in init: G.wr(s, ("v", st[1], st[2]) if st[0] == "SSetV" else ("m", st[1], st[2], st[3]), st[-1])
+    stmts = []; tries = 0
+    while len(stmts) < nstmts and tries < 40 * nstmts:
+        tries += 1
+        n = rng.choice(ns); A = rng.choice(sq[n]); up, un = rng.random() < 0.5, rng.random() < 0.4
+        if rng.random() < 0.15: A = ("MTrans", A)
+        T3 = ("MTri", up, un, A); c = rng.choice([2, 3, -2, -3])
+        if rng.random() < 0.7:
+            t, v = rng.sample(vec[n], 2); P = ("VMv", 1, T3, v); sc = lambda e: ("VScale", c, e); H = "SAssignV"
+            alias = ("VMv", 1, T3, t)
+        else:
+            t, v = rng.sample(rect[n], 2); P = ("MProd", 1, T3, v); sc = lambda e: ("MScale", c, e); H = "SAssignM"
+            alias = ("MProd", 1, T3, t)
+        u = rng.random()
+        if u < 0.22: st = (H, True, "OpAdd", t, sc(P))
+        elif u < 0.38: st = (H, True, "OpSub", t, P)
+        elif u < 0.50: st = (H, True, "OpSub", t, sc(P))
+        elif u < 0.60: st = (H, False, "OpSet", t, P)
+        elif u < 0.70: st = (H, True, "OpSet", t, sc(P))
+        elif u < 0.78: st = (H, False, "OpAdd", t, P)
+        elif u < 0.86: st = (H, True, "OpAdd", t, P)
+        elif u < 0.92: st = (H, False, "OpSub", t, sc(P))
+        elif u < 0.96: st = (H, False, "OpSet", t, alias)
+        else: st = (H, False, "OpAdd", t, sc(alias))
+        try: s2, _ = G.exec_stmt(s, st)
+        except G.Reject:
+            # values grew too large: reset the target
+            st = (H, False, "OpSet", t, ("VConst", t[2], rng.choice([-1, 1, 2])) if H == "SAssignV" else ("MConst", t[2], t[3], rng.choice([-1, 1, 2])))
+            s2, _ = G.exec_stmt(s, st)
+        s = s2; stmts.append(st)
+    return Program(decls, orient, init + stmts, name, quiet=len(init))
+
+
 def main():
     ck = Check(PID)
     ck.trusted = DEFAULT_TRUSTED + ["Python reference evaluator of the documented meaning (tools/c01_gen.py: vden/mden/exec_stmt) used as spec monitor, cross-checked against the extracted Coq interpreter on every program",
@@ -486,12 +594,21 @@ def main():
         stmts = g.program(60 if thorough else 45)
         shards.append((Program(g.decls, g.orient, stmts, "bigshard%d" % i), [vt] if vt == "long" else [vt, vt + "_cblas"]))
         for k, v in g.stats.items(): stats[k] = stats.get(k, 0) + v
+    # long inner dimension (tiles of the CBLAS fall-back gemm) and triangular products
+    for i in range(6 if thorough else 2):
+        prog = long_inner_program(random.Random(ck.rng.getrandbits(48)), "longshard%d" % i, above_tile=(i % 2 == 0))
+        shards.append((prog, ["double", "double_cblas"]))
+        stats["long-inner-dimension statements"] = stats.get("long-inner-dimension statements", 0) + len(prog.stmts) - prog.quiet
+    for i in range(4 if thorough else 1):
+        prog = tri_program(random.Random(ck.rng.getrandbits(48)), "trishard%d" % i, 90 if thorough else 70)
+        shards.append((prog, ["long", "double", "double_cblas"]))
+        stats["triangular_prod statements"] = stats.get("triangular_prod statements", 0) + len(prog.stmts) - prog.quiet
     # compile all variants of all shards in parallel (4 jobs) before the sequential comparison
     from concurrent.futures import ThreadPoolExecutor
     with ThreadPoolExecutor(max_workers=4) as ex:
         list(ex.map(lambda pv: run_cxx(pv[0], pv[1]), [(p, v) for p, vs in shards for v in vs]))
     for prog, vs in shards:
-        nev += check_program(ck, model, prog, vs, "main-stream")
+        nev += check_program(ck, model, prog, vs, "main-stream" if not prog.quiet else ("long-inner-stream" if prog.name.startswith("long") else "triangular-stream"))
         samples.append([G.Cxx(random.Random(7)).stmt(s) for s in prog.stmts[-3:]])
     # sparse stream: NOT ENABLED.  Probes show that on the unchanged tree `compressed_matrix = dense matrix`
     # (sparse.hpp:243) and `dense = compressed_vector + dense` do not compile and compressed containers have no
